@@ -15,6 +15,7 @@ import (
 	"fmt"
 	"os"
 	"path/filepath"
+	"runtime"
 	"runtime/debug"
 	"sort"
 	"strconv"
@@ -191,6 +192,15 @@ func safeExec(c *Config, op string) (obs, tag string) {
 	}
 }
 
+// drain gives goroutines of the case that just finished (its safeExec goroutine, callbacks that
+// are about to return) a bounded moment to exit, so that a harness which takes a
+// runtime.NumGoroutine() baseline at the start of the next case does not see them.
+func drain(base int) {
+	for i := 0; i < 40 && runtime.NumGoroutine() > base; i++ {
+		time.Sleep(50 * time.Microsecond)
+	}
+}
+
 func readLines(path string) []string {
 	f, err := os.Open(path)
 	if err != nil {
@@ -243,7 +253,9 @@ func Main(c *Config) {
 	}
 	if *out == "" {
 		for _, op := range ops {
+			base := runtime.NumGoroutine()
 			obs, tag := safeExec(c, op)
+			drain(base)
 			fmt.Printf("%s\t%s\t%s\n", op, obs, tag)
 		}
 		return
@@ -256,7 +268,9 @@ func Main(c *Config) {
 		if strings.ContainsAny(op, "\t\n") {
 			panic("harness: op line contains tab/newline")
 		}
+		base := runtime.NumGoroutine()
 		obs, tag := safeExec(c, op)
+		drain(base)
 		fmt.Fprintln(fo, op)
 		fmt.Fprintln(fi, obs)
 		fmt.Fprintln(ft, tag)
